@@ -167,6 +167,11 @@ def _handler(P, R, fn, own, opp):
             while s[0] == "un" and s[1] == "Not":
                 s = strip(s[2]); neg = not neg
             pol = g["polarity"] != neg
+            if s[0] == "phi" and pol:
+                # `a && b` returned by an inlined helper: phi(false | b) is true only where b is
+                alts = [strip(a) for a in s[1] if strip(a) != ("const", "bool", False)]
+                if len(alts) == 1:
+                    s = alts[0]
             if s[0] == "call" and s[1] == SJ + "::is_within_window" and pol:
                 roles = {_role(fn, a, item_bbs) for a in s[2][1:3]}
                 w_ok = roles == {"ARRIVAL", "ITEM"}
@@ -247,8 +252,22 @@ def _window(P, R):
                     why = "%s is %s" % (a[:140], v)
             else:
                 why = a[:140]
+    if not ok and not why:
+        # no row is conditioned on the TimeWindow arm (early return for the other strategies, bound taken from a helper):
+        # decide the shared comparison by meaning - !(bound < |l - r|) with the bound being the window duration
+        for conds, ret in rows:
+            if ret is None:
+                continue
+            m = A.inline_sym(P, ret)
+            a, v = A.norm_bool(m, True)
+            if " < " in a:
+                lhs, rhs = a.split(" < ", 1)
+                if "abs(" in rhs and "left.metadata.timestamp" in rhs and "right.metadata.timestamp" in rhs and "Sub" in rhs and v is False and ("as_secs" in lhs or "get_window_duration" in lhs or "duration" in lhs):
+                    ok = True
     if ok:
         R.hold("d", "is_within_window == |left.ts - right.ts| <= duration (symmetric)", fn=fn)
+    elif not why:
+        R.undecide("d", "window-asymmetric", "is_within_window has no row on the TimeWindow arm in a form this rule reads", fn)
     else:
         R.violate("d", "window-asymmetric", "is_within_window (TimeWindow) is not `|left.ts - right.ts| <= duration`: %s" % why, fn)
     gw = P.one(SJ + "::get_window_duration")
